@@ -1,7 +1,9 @@
 #!/bin/sh
-# developer tool: run every seeded mutant against the check of its property; one line per mutant
+# developer tool: run seeded mutants against the check of their property; one line per mutant
+# usage: tools/seeded_matrix.sh [glob-of-seeded-dir-names]      (default: all)
 cd "$(dirname "$0")/.." || exit 2
-for d in seeded/*/; do
+pat="${1:-*}"
+for d in seeded/$pat/; do
   n=$(basename $d); id=${n%%-*}
   out=$(VERIF_SHRINK_BUDGET=${VERIF_SHRINK_BUDGET:-3} VERIF_NPROC=16 MUT_LINES=1 tools/mutcheck.sh $d/patch.diff $id quick 2>&1)
   rc=$(echo "$out" | grep -o "exit=[a-z0-9-]*" | tail -1)
